@@ -27,6 +27,18 @@ def apply(toks, au, opts):
                 out += _call("vx_lossy_string", [toks[i + 5:k]], t.ws)
                 i = k + 5
                 continue
+        # String::from("literal")  ->  vx_string_from("literal")        Vec::from(E)  ->  vx_slice_to_vec(E)   (E a byte slice; anything else is a type error -> undecided)
+        if is_id(t, "String") and texts(toks, i + 1, 4) == [":", ":", "from", "("] and toks[i + 5].kind == "str" and is_p(toks[i + 6], ")"):
+            au.note("R", 'String::from("lit") -> vx_string_from("lit")')
+            out += _call("vx_string_from", [[toks[i + 5]]], t.ws)
+            i += 7
+            continue
+        if is_id(t, "Vec") and texts(toks, i + 1, 4) == [":", ":", "from", "("]:
+            k = match_close(toks, i + 4)
+            au.note("R", "Vec::from(E) -> vx_slice_to_vec(E)")
+            out += _call("vx_slice_to_vec", [[x.copy() for x in toks[i + 5:k]]], t.ws)
+            i = k + 1
+            continue
         # "literal".into()  ->  vx_string_from("literal")
         if t.kind == "str" and texts(toks, i + 1, 4) == [".", "into", "(", ")"]:
             au.note("R", '"lit".into() -> vx_string_from("lit")')
